@@ -12,5 +12,6 @@ CONSTANTS
   SCAN_NO_FINAL = FALSE
   SCAN_NO_ENTRY_CHECK = FALSE
   SCAN_DUP = FALSE
+  ISCAN_NO_REWIND = FALSE
 INVARIANTS LinOK ScanOK NvOK RootOpsOK Quiescent
 PROPERTY Termination
